@@ -283,6 +283,8 @@ impl Engine {
     /// This is useful for streaming or real-time synthesis.
     pub fn generator(&self, labels: impl ToLabels) -> Result<SpeechGenerator, EngineError> {
         let labels = labels.to_labels(&self.condition)?;
+        #[cfg(feature = "verif-hooks")]
+        crate::verif::point("engine.labels");
         let vocoder = Vocoder::new(
             self.voices.stream_metadata(0).vector_length,
             self.voices.stream_metadata(2).vector_length,
@@ -295,12 +297,16 @@ impl Engine {
             self.condition.fperiod,
         );
 
+        #[cfg(feature = "verif-hooks")]
+        crate::verif::point("engine.vocoder");
         let models = Models::new(
             labels.labels(),
             &self.voices,
             &self.condition.interporation_weight,
         );
 
+        #[cfg(feature = "verif-hooks")]
+        crate::verif::point("engine.models");
         let estimator = DurationEstimator::new(models.duration(), models.nstate());
         let durations = if self.condition.phoneme_alignment_flag {
             estimator.create_with_alignment(labels.times())
@@ -308,6 +314,8 @@ impl Engine {
             estimator.create(self.condition.speed)
         };
 
+        #[cfg(feature = "verif-hooks")]
+        crate::verif::point("engine.durations");
         fn mutated<T, F: FnOnce(&mut T)>(mut value: T, f: F) -> T {
             f(&mut value);
             value
@@ -319,6 +327,8 @@ impl Engine {
             models.model_stream(0),
         )
         .create(&durations);
+        #[cfg(feature = "verif-hooks")]
+        crate::verif::point("engine.spectrum");
         let lf0 = MlpgAdjust::new(
             self.condition.gv_weight[1],
             self.condition.msd_threshold[1],
@@ -328,6 +338,8 @@ impl Engine {
             }),
         )
         .create(&durations);
+        #[cfg(feature = "verif-hooks")]
+        crate::verif::point("engine.lf0");
         let lpf = if self.voices.global_metadata().num_streams > 2 {
             MlpgAdjust::new(
                 self.condition.gv_weight[2],
@@ -339,6 +351,8 @@ impl Engine {
             vec![vec![0.0; 0]; lf0.len()]
         };
 
+        #[cfg(feature = "verif-hooks")]
+        crate::verif::point("engine.lpf");
         Ok(SpeechGenerator::new(
             self.condition.fperiod,
             vocoder,
